@@ -17,6 +17,7 @@ EXPLANATION = (
     "column was copied by fancy indexing (no write-through into the input matrix); (RANGE) the piano-range slice spans 88 "
     "rows starting at 21 and agrees with the inverse; (F4a) the inverse builds rows matching its dtype."
     ' (ROUND-all) every frame of the inverse passes the scan that closes notes which stopped sounding.'
+    ' (RESTRIKE-eq) the re-strike that ends a pedal-held note is selected with a comparison that includes the release moment itself.'
 )
 NOT_DECIDED = [
     "cell-exact content of the roll, collisions (max), margins, end_time (run-time values)",
@@ -165,6 +166,8 @@ def rule_range(ctx):
 
 
 def run(ctx):
+    from ..rules import round6 as _R6
+    _R6.rule_restrike_at_release_counts(ctx)
     from ..rules import round5 as _R5c
     _R5c.rule_dispatch_on_whole_argument(ctx)
     from ..rules import round5 as _R5
